@@ -12,7 +12,7 @@ PROFILES = {
     "C04": ("mixed", "reset", "limits", "shutdown", "queue", "bp"),
     "C17": ("reset", "mixed", "queue", "shutdown", "limits"),
     "C07": ("shutdown", "reset", "mixed", "flow"),
-    "C09": ("chaos", "legal", "chaos", "legal", "mixed"),
+    "C09": ("chaos", "legal", "race", "chaos", "race", "legal", "mixed"),
 }
 
 
@@ -27,7 +27,7 @@ def run_oracles(rep, prop, scs):
     for sc in scs:
         if prop == "C09":
             vs = [x for x in (wireview.reaction_oracle(sc), wireview.tolerance_oracle(sc)) if x]
-            if any("chaos" in (st["op"].get("what") or {}) for st in sc["trace"] if isinstance(st["op"].get("what"), dict)) or sc.get("profile") == "legal":
+            if any("chaos" in (st["op"].get("what") or {}) for st in sc["trace"] if isinstance(st["op"].get("what"), dict)) or sc.get("profile") in ("legal", "race"):
                 nontriv += 1
         else:
             wv = wireview.WireView(sc)
